@@ -115,6 +115,11 @@ func (s *SQLRepository) Get(name string) (<-chan *Snapshot, error) {
 
 // GetSince attempts to return a channel of snapshots for the asset with the given name since the given date.
 func (s *SQLRepository) GetSince(name string, date time.Time) (<-chan *Snapshot, error) {
+	_, err := s.LastDate(name)
+	if err != nil {
+		return nil, ErrRepositoryAssetNotFound
+	}
+
 	rows, err := s.getSinceQuery.Query(name, date)
 	if err != nil {
 		return nil, fmt.Errorf("unable to get since: %w", err)
